@@ -335,6 +335,10 @@ EVERY = ('do\nlocal x=1\nwhile x do\nx=f(a,{b,[c]=d},t[i])\nend\nrepeat\n'
 LINES = ('if (a) b=1 else b=2\ndo\nx=1\nif (c) d=1\ny=f(1,\n2)\nend\n'
          'function f(a,\nb)\nif (c) d=1 else d=2\nif (e) return\n'
          'for i=1,2 do\nif (g) h() else i()\nz=1\nend\nend\nw=0\n')
+# ten blocks deep (indentation beyond 64 columns at width 8)
+DEEP = 'do\n' * 10 + 'x=1\n' + 'end\n' * 10
+# lines that begin with a semicolon
+SEMIS = ('do\nx=1\n;y=2\n;(f)(x)\nwhile x do\n;z=3\nend\nend\n;w=4\n')
 # lines after the ? print shorthand (its arguments have no closing bracket)
 PRINTS = ('?a\nx=1\ndo\n?"s",1,2\ny=f(1,\n2)\n?b\nif (c) ?d\nz=1\nend\n'
           'function g()\n?e,f\nreturn\nend\n?h\nw=0\n')
@@ -344,6 +348,8 @@ HARNESSES.append(
                    dict(Q, src=LINES, width=2, layout='lines'),
                    dict(Q, src=LINES, width=1, layout='lines'),
                    dict(Q, src=PRINTS, width=2, layout='lines'),
+                   dict(Q, src=DEEP, width=8), dict(Q, src=DEEP, width=5),
+                   dict(Q, src=SEMIS, width=2, layout='lines'),
                    dict(Q, pre='do ', post=' end', k=1, width=2),
                    dict(Q, pre='x=f(', post=')', k=1, width=3)],
             thorough=[dict(Q, src=EVERY, width=w) for w in range(0, 9)] +
